@@ -341,6 +341,10 @@ func (u *universe) fillDeps(r *rng.R, in *PkgIn, owner *gpkg, nobdeps bool) {
 // profile tree
 func genProfile(r *rng.R, u *universe, in *Input) {
 	nprof := 1 + r.Heavy(4)
+	diamond := r.Chance(1, 5) // a shared ancestor whose atom one branch removes and the other inherits again
+	if diamond && nprof < 4 {
+		nprof = 4 + r.Intn(2)
+	}
 	dirs := make([]string, nprof)
 	pool := []string{"repo/profiles/base", "repo/profiles/arch/amd64", "repo/profiles/default/linux",
 		"repo/profiles/releases/23.0", "repo/profiles/features/musl", "repo/profiles/targets/desktop", "repo/profiles/default/linux/amd64"}
@@ -415,6 +419,33 @@ func genProfile(r *rng.R, u *universe, in *Input) {
 			}
 		}
 		nodes[i] = n
+	}
+	if diamond {
+		z := nprof - 1
+		x := ""
+		for _, l := range nodes[z].Packages {
+			if strings.HasPrefix(string(l), "*") {
+				x = string(l)[1:]
+			}
+		}
+		if x == "" {
+			x = u.pkgs[r.Intn(len(u.pkgs))].pn()
+			nodes[z].HasPackages = true
+			nodes[z].Packages = append(nodes[z].Packages, B("*"+x))
+		}
+		a, b := 1, 2
+		if r.Chance(1, 2) {
+			a, b = 2, 1
+		}
+		nodes[0].HasParent, nodes[0].Parent = true, []B{B(relPath(dirs[0], dirs[a])), B(relPath(dirs[0], dirs[b]))}
+		nodes[a].HasParent, nodes[a].Parent = true, []B{B(relPath(dirs[a], dirs[z]))}
+		nodes[b].HasParent, nodes[b].Parent = true, []B{B(relPath(dirs[b], dirs[z]))}
+		rm := a // the branch read first removes the atom; the branch read second brings it back
+		if r.Chance(1, 3) {
+			rm = b
+		}
+		nodes[rm].HasPackages = true
+		nodes[rm].Packages = append(nodes[rm].Packages, B("-*"+x))
 	}
 	in.Prof = nodes
 	// make.profile: a symlink to the leaf (relative or absolute), or a real directory naming it as parent
